@@ -873,7 +873,16 @@ void output_text(FILE *pfile)
             if (options::sp_before_nl_cont() & IARF_REMOVE)
             {
                log_rule_B("sp_before_nl_cont");
-               pc->SetColumn(cpd.column + (options::sp_before_nl_cont() == IARF_FORCE));
+               // the lines are spliced: a word in column 1 of the next line must not run into a word in front of the backslash
+               Chunk      *before = pc->GetPrev();
+               Chunk      *after  = pc->GetNext();
+               const bool glue    = (  before->Len() > 0
+                                    && after->Len() > 0
+                                    && after->GetColumn() == 1
+                                    && CharTable::IsKw2(before->GetStr()[before->Len() - 1])
+                                    && CharTable::IsKw2(after->GetStr()[0]));
+               pc->SetColumn(cpd.column + (  options::sp_before_nl_cont() == IARF_FORCE
+                                          || glue));
             }
             else
             {
